@@ -20,8 +20,20 @@ class SymMeta(type):
     def __instancecheck__(cls, obj):
         return issubclass(type(obj), cls)
 
+    def __getattr__(cls, name):
+        # symbolic "has this method": only for the names the world declares
+        w = cls.__dict__.get("_world")
+        if w is not None and name in w.hm_names:
+            if current().decide(w.H[name][cls._idx]):
+                return _a_method
+        raise AttributeError(name)
+
     def __repr__(cls):
         return f"<class K{cls._idx}>"
+
+
+def _a_method(self, *a):
+    return None
 
 
 def realize(rel, n, extra_ns=None):
@@ -46,8 +58,9 @@ class World:
     """n harness classes with a symbolic (or, for replay, real) subclass relation, and
     integer priorities p0..  `object` has index n and sits above everything."""
 
-    def __init__(self, ex, n, nprio=0, real=False, extra_ns=None, prefix=""):
+    def __init__(self, ex, n, nprio=0, real=False, extra_ns=None, prefix="", hm_names=()):
         self.ex = ex
+        self.hm_names = tuple(hm_names)
         self.n = n
         self.real = real
         self.prefix = prefix
@@ -65,6 +78,13 @@ class World:
                 for k in range(n):
                     if k != i and k != j:
                         valid.append(z3.Implies(z3.And(self.R[i][j], self.R[j][k]), self.R[i][k]))
+        self.H = {}
+        for name in self.hm_names:
+            self.H[name] = [ex.bool(f"{prefix}has_{name}_{i}") for i in range(n)]
+            for i in range(n):
+                for j in range(n):
+                    if i != j:  # inheritance: a subclass of a class that has the method has it
+                        valid.append(z3.Implies(z3.And(self.R[i][j], self.H[name][j]), self.H[name][i]))
         if valid:
             ex.s.add(*valid)
         self.valid = valid
@@ -73,6 +93,15 @@ class World:
             f = ex.forced
             rel = [[i == j or bool(f.get(f"{prefix}r_{i}_{j}", False)) for j in range(n)] for i in range(n)]
             self.relc = rel
+            base_ns = extra_ns
+
+            def extra_ns(i, base_ns=base_ns):
+                ns = dict(base_ns(i)) if base_ns else {}
+                for name in self.hm_names:
+                    if f.get(f"{prefix}has_{name}_{i}", False):
+                        ns[name] = _a_method
+                return ns
+
             self.K = realize(rel, n, extra_ns)
             self.prio = [int(f.get(f"{prefix}p{m}", 0)) for m in range(nprio)]
         else:
@@ -87,6 +116,12 @@ class World:
 
     def cls(self, i):
         return object if i == self.n else self.K[i]
+
+    def has(self, i, name):
+        """z3: class i has method `name` (object never has a harness method)"""
+        if i == self.n:
+            return z3.BoolVal(False)
+        return self.H[name][i]
 
     def rel(self, i, j):
         """z3: class i is a subclass of class j (index n = object)"""
